@@ -101,10 +101,46 @@ async fn limit_h(rq: RequestContext<()>, q: Query<PaginationParams<Scan, Sel>>) 
     Ok(HttpResponseOk(LimitSeen { limit, first_page: matches!(pag.page, WhichPage::First(_)) }))
 }
 
+/// Scan parameters that refuse unknown fields: `limit` and `page_token` belong to the framework
+/// and must not be handed to the consumer's scan-parameter type.
+#[derive(Clone, Debug, Deserialize, JsonSchema)]
+#[serde(deny_unknown_fields)]
+pub struct StrictScan {
+    pub size: Option<u32>,
+}
+async fn limit_strict_h(rq: RequestContext<()>, q: Query<PaginationParams<StrictScan, Sel>>) -> Result<HttpResponseOk<LimitSeen>, HttpError> {
+    let pag = q.into_inner();
+    let limit = rq.page_limit(&pag)?.get();
+    Ok(HttpResponseOk(LimitSeen { limit, first_page: matches!(pag.page, WhichPage::First(_)) }))
+}
+
+/// A page selector whose serialisation fails part-way (after some output has been produced).
+#[derive(Clone, Debug, Deserialize, Serialize, JsonSchema)]
+pub struct BadSel {
+    pub name: String,
+    #[schemars(with = "String")]
+    pub at: Unserializable,
+    pub tail: u32,
+}
+#[derive(Clone, Debug, Deserialize)]
+pub struct Unserializable;
+impl Serialize for Unserializable {
+    fn serialize<S: serde::Serializer>(&self, _s: S) -> Result<S::Ok, S::Error> {
+        Err(serde::ser::Error::custom("this value cannot be serialised"))
+    }
+}
+async fn bad_token_h(_rq: RequestContext<()>, q: Query<PaginationParams<Scan, BadSel>>) -> Result<HttpResponseOk<ResultsPage<Item>>, HttpError> {
+    let _ = q.into_inner();
+    let scan = Scan { size: 1, sort: None, long: None };
+    Ok(HttpResponseOk(ResultsPage::new(vec![item(0, false)], &scan, |it: &Item, _: &Scan| BadSel { name: it.name.clone(), at: Unserializable, tail: 7 })?))
+}
+
 pub fn api() -> ApiDescription<()> {
     let mut api = ApiDescription::new();
     let ct = "application/json";
     api.register(ApiEndpoint::new("items".into(), items_h, http::Method::GET, ct, "/items", ApiEndpointVersions::All)).unwrap();
     api.register(ApiEndpoint::new("limit".into(), limit_h, http::Method::GET, ct, "/limit", ApiEndpointVersions::All)).unwrap();
+    api.register(ApiEndpoint::new("bad_token".into(), bad_token_h, http::Method::GET, ct, "/bad_token", ApiEndpointVersions::All)).unwrap();
+    api.register(ApiEndpoint::new("limit_strict".into(), limit_strict_h, http::Method::GET, ct, "/limit_strict", ApiEndpointVersions::All)).unwrap();
     api
 }
